@@ -109,6 +109,7 @@ func runSession(r *ev.Run, rng *gen.Rand, sidx int) {
 	defer closeAll()
 	g := proxyrig.NewMySessGen(rng, tables)
 	g.Interleave = true
+	g.Upserts = true
 	nSteps := 5 + rng.Intn(36)
 	var history []string
 	for i := 0; i < nSteps; i++ {
